@@ -46,7 +46,7 @@ func TestC04(t *testing.T) {
 // ---- C05 -------------------------------------------------------------------
 
 var c05Cfg = SGenCfg{PingsPct: 60, RFs: []int{3, 3, 5, 5, 4}, MinOps: 5, MaxOps: 22, FaultPct: 40, SlowFaults: true, MaxSlow: 2,
-	W: map[string]int{"write": 30, "sync": 6, "unmap": 8, "read": 16, "readd": 10, "promote": 3, "remove": 4, "pingfail": 8, "nodedrop": 8, "errio": 6, "iorace": 3}}
+	W: map[string]int{"write": 30, "sync": 6, "unmap": 8, "read": 16, "readd": 10, "promote": 3, "remove": 4, "pingfail": 8, "nodedrop": 8, "errio": 6, "iorace": 3, "loneboot": 3}}
 
 func TestC05(t *testing.T) {
 	runStackProperty(t, "C05", "TestC05", func(rt *rapid.T) SProgram { return GenSProgram(rt, c05Cfg) },
